@@ -166,6 +166,12 @@ type World struct {
 	lastTold          map[string]string // pod/addr -> state in the last update delivered to that pod
 	markAt            map[string]int    // pod/addr -> attempts of that pod when the copy was marked in_transfer
 	held              []*heldScrape
+	dynEvents         []dynEvent // events scheduled by a fault decision (applied by the main loop when due)
+}
+
+type dynEvent struct {
+	At time.Time
+	Ev WEvent
 }
 
 func (w *World) logf(f string, a ...interface{}) {
